@@ -9,8 +9,8 @@ open ESV ESV.Beh
 structure ElseOK (cx : Cx) (E : Nat) (s : St) (env : Src.Env) (sE : St) (ep : List LItem) (trE : Nat → Src.B → Src.B × Nat) : Prop where
   nonone : NoNone ep
   grow : ∀ k b, Grow cx.Z b (trE k b).1
-  corr : ∀ r q, Placed cx.rs r q ep → ∀ k b, AgreeOn cx.N cx.Z b (trE k b).1 → ∀ m j, ExitsOK cx m j s env → NamedIn cx sE →
-    R2 cx m j (target cx.rs E) k → R2 cx m j ⟨r, q⟩ (trE k b).2 ∧ LabExport cx env m j b (trE k b).1
+  corr : ∀ r q, Placed cx.cp cx.rs r q ep → ∀ k b, AgreeOn cx.N cx.Z b (trE k b).1 → ∀ m j, ExitsOK cx m j s env → NamedIn cx sE →
+    R2 cx m j (target cx.rs (cx.cp.σ E)) k → R2 cx m j ⟨r, q⟩ (trE k b).2 ∧ LabExport cx env m j b (trE k b).1
 
 theorem frontOf_nonone : ∀ (brs : List BrD), (∀ d ∈ brs, NoNone d.hdrs ∧ NoNone d.PB) → NoNone (frontOf brs) := by
   intro brs
@@ -57,11 +57,11 @@ theorem ite_assemble (cx : Cx) (fuel : Nat) (E : Nat) (s s' : St) (env : Src.Env
     (trE : Nat → Src.B → Src.B × Nat) (sE : St) (hel : ElseOK cx E s env sE ep trE) (hstk : SameStk s s')
     (hleB : ∀ d ∈ brs, NamedLe d.sB s') (hleE : NamedLe sE s') :
     PieceOK cx (frontOf brs ++ ep ++ backOf brs ++ [.label E false]) s s'
-      (fun k b => Src.trBranches fuel [] env (srcBranches brs) k (trE k b).2 (trE k b).1) env := by
-  have hgrow : ∀ k b, Grow cx.Z b (Src.trBranches fuel [] env (srcBranches brs) k (trE k b).2 (trE k b).1).1 := by
+      (fun k b => Src.trBranches fuel cx.sm env (srcBranches brs) k (trE k b).2 (trE k b).1) env := by
+  have hgrow : ∀ k b, Grow cx.Z b (Src.trBranches fuel cx.sm env (srcBranches brs) k (trE k b).2 (trE k b).1).1 := by
     intro k b
     -- the chain lemma's growth part does not look at the placement; use it with a dummy placement-free argument
-    have : ∀ (brs' : List BrD), (∀ d ∈ brs', BrOK cx fuel E s env d) → ∀ k e b', Grow cx.Z b' (Src.trBranches fuel [] env (srcBranches brs') k e b').1 := by
+    have : ∀ (brs' : List BrD), (∀ d ∈ brs', BrOK cx fuel E s env d) → ∀ k e b', Grow cx.Z b' (Src.trBranches fuel cx.sm env (srcBranches brs') k e b').1 := by
       intro brs'
       induction brs' with
       | nil => intro _ k e b'; simp only [srcBranches]; rw [Src.trBranches]; exact Grow.refl _
@@ -69,15 +69,15 @@ theorem ite_assemble (cx : Cx) (fuel : Nat) (E : Nat) (s s' : St) (env : Src.Env
         intro hall k e b'
         simp only [srcBranches]
         rw [Src.trBranches]
-        simp only [he.1]
+        dsimp only
         have g1 := ih (fun x hx => hall x (by simp [hx])) k e b'
-        generalize Src.trBranches fuel [] env (srcBranches rest) k e b' = R1 at g1 ⊢
+        generalize Src.trBranches fuel cx.sm env (srcBranches rest) k e b' = R1 at g1 ⊢
         obtain ⟨b1, re⟩ := R1
         have g2 := (hall d (by simp)).grow k b1
-        generalize Src.trStmts fuel [] env (toSrcStmts d.body) k b1 = R2' at g2 ⊢
+        generalize Src.trStmts fuel cx.sm env (toSrcStmts d.body) k b1 = R2' at g2 ⊢
         obtain ⟨b2, be⟩ := R2'
         simp only at g1 g2 ⊢
-        have tc : ∀ (ts : List Ev) (x y : Nat) (b0 : Src.B), Grow cx.Z b0 (Src.testChain [] ts x y b0).1 := by
+        have tc : ∀ (ts : List Ev) (x y : Nat) (b0 : Src.B), Grow cx.Z b0 (Src.testChain env.subst ts x y b0).1 := by
           intro ts
           induction ts with
           | nil => intro x y b0; simp only [Src.testChain]; exact Grow.refl _
@@ -100,14 +100,14 @@ theorem ite_assemble (cx : Cx) (fuel : Nat) (E : Nat) (s s' : St) (env : Src.Env
   · intro h0; simp at h0
   · intro l hl; rw [loneJump_snoc_label] at hl; cases hl
   · intro r i0 hp _ k b hag m j hex hin hcont
-    have hpF : Placed cx.rs r i0 (frontOf brs) := hp.left.left.left
-    have hpE : Placed cx.rs r (i0 + (frontOf brs).length) ep := hp.left.left.right
-    have hpBk : Placed cx.rs r (i0 + (frontOf brs ++ ep).length) (backOf brs) := hp.left.right
-    have hlab : itemAt cx.rs ⟨r, i0 + (frontOf brs ++ ep ++ backOf brs).length⟩ = some (.label E false) := by
+    have hpF : Placed cx.cp cx.rs r i0 (frontOf brs) := hp.left.left.left
+    have hpE : Placed cx.cp cx.rs r (i0 + (frontOf brs).length) ep := hp.left.left.right
+    have hpBk : Placed cx.cp cx.rs r (i0 + (frontOf brs ++ ep).length) (backOf brs) := hp.left.right
+    have hlab : ItemC cx.cp cx.rs ⟨r, i0 + (frontOf brs ++ ep ++ backOf brs).length⟩ (.label E false) := by
       simpa using hp.item (d := (frontOf brs ++ ep ++ backOf brs).length) (by simp)
-    have htgt : target cx.rs E = ⟨r, i0 + (frontOf brs ++ ep ++ backOf brs).length⟩ := by
+    have htgt : target cx.rs (cx.cp.σ E) = ⟨r, i0 + (frontOf brs ++ ep ++ backOf brs).length⟩ := by
       simpa using hp.resolve cx.hlab (d := (frontOf brs ++ ep ++ backOf brs).length) (l := E) (nm := false) (by simp)
-    have hend : R2 cx m j (target cx.rs E) k := by
+    have hend : R2 cx m j (target cx.rs (cx.cp.σ E)) k := by
       rw [htgt]
       refine R2.silL (lab_label hlab) ?_
       have := hcont (falls_snoc_label _ _ _)
